@@ -373,6 +373,10 @@ def install(interp):
         return round(x, n) if n is not None else round(x)
 
     def py_dict(*a, **k):
+        if not a:
+            from .interp import SymKeyDict
+
+            return SymKeyDict(**k)
         if a and isinstance(a[0], IObj):
             raise Unsupported("dict(IObj)")
         if a and isinstance(a[0], GenList):
